@@ -153,7 +153,7 @@ func genSeed(r *hx.Rng) int64 {
 	}
 }
 
-// exhaustive block of the thorough tier: every seat list of length 1..5 over operators {0,1,2,3}
+// exhaustive block of the thorough tier: every seat list of length 1..6 over operators {0,1,2,3}
 // (all orders), every requested count 0..len+1: all key-generation retry counts (kgall) for two
 // seeds and signing for retry counts 0..2.
 func genExhaustive() []string {
@@ -169,16 +169,20 @@ func genExhaustive() []string {
 	var rec func()
 	rec = func() {
 		if len(seats) > 0 {
+			seeds, retries := []int64{0, 7}, 3
+			if len(seats) == 6 { // the largest layer once per case
+				seeds, retries = []int64{0}, 1
+			}
 			for k := 0; k <= len(seats)+1; k++ {
-				for _, seed := range []int64{0, 7} {
+				for _, seed := range seeds {
 					out = append(out, fmt.Sprintf("kgall %s %d %d %s", hx.JoinInts(seats), seed, k, st(seed)))
 				}
-				for retry := 0; retry < 3; retry++ {
+				for retry := 0; retry < retries; retry++ {
 					out = append(out, fmt.Sprintf("sg %s %d %d %d %s", hx.JoinInts(seats), 3, retry, k, st(3+int64(retry))))
 				}
 			}
 		}
-		if len(seats) == 5 {
+		if len(seats) == 6 {
 			return
 		}
 		for o := 0; o < 4; o++ {
